@@ -21,7 +21,7 @@ from __future__ import annotations
 import ast
 import copy
 
-from .pyast import Unrecognised, clean, const, cstr, find_def, module_assign, parse, unparse
+from .pyast import Unrecognised, clean, const, cstr, cstrs, find_def, if_chain, module_assign, parse, unparse
 
 GFA = "simple_parsing/annotation_utils/get_field_annotations.py"
 
@@ -179,6 +179,281 @@ def _norm_facts(tree):
     return "[" + "; ".join(rows) + "]", f"ARaise {cstr(_raise_name(body[-1]))}", handles_ellipsis
 
 
+# ---- utils predicates and the wrapper dispatch (tie audit) ----------------------------------------
+
+def ctext(fn):
+    """unparse of a function with docstrings, logger calls and `pass` removed at every level"""
+    fn = copy.deepcopy(fn)
+    for n in ast.walk(fn):
+        if isinstance(getattr(n, "body", None), list):
+            n.body = clean(n.body) or [ast.Pass()]
+        if isinstance(getattr(n, "orelse", None), list):
+            n.orelse = clean(n.orelse)
+    if hasattr(fn, "decorator_list"):
+        fn.decorator_list = []
+    return unparse(fn)
+
+
+EXACT = {
+    ("utils", "get_type_arguments"): "def get_type_arguments(container_type: type) -> tuple[type, ...]:\n    return get_args(container_type)",
+    ("utils", "get_dataclass_type_arg"): (
+        "def get_dataclass_type_arg(t: type) -> type | None:\n"
+        "    if not contains_dataclass_type_arg(t):\n        return None\n"
+        "    if is_dataclass_type_or_typevar(t):\n        return t\n"
+        "    elif is_tuple_or_list(t) or is_union(t):\n"
+        "        return next(filter(None, (get_dataclass_type_arg(arg) for arg in get_type_arguments(t))), None)\n"
+        "    return None"),
+    ("utils", "is_tuple_or_list_of_dataclasses"): (
+        "def is_tuple_or_list_of_dataclasses(t: type) -> bool:\n"
+        "    return is_tuple_or_list(t) and is_dataclass_type_or_typevar(get_item_type(t))"),
+    ("utils", "is_tuple_or_list"): "def is_tuple_or_list(t: type) -> bool:\n    return is_list(t) or is_tuple(t)",
+    ("utils", "is_dataclass_type_or_typevar"): (
+        "def is_dataclass_type_or_typevar(t: type) -> bool:\n"
+        "    return dataclasses.is_dataclass(t) or (is_typevar(t) and dataclasses.is_dataclass(get_bound(t)))"),
+    ("utils", "get_item_type"): (
+        "def get_item_type(container_type: type[Container[T]]) -> T:\n"
+        "    if container_type in {list, set, tuple, list, set, tuple, dict, Mapping, MutableMapping}:\n        return Any\n"
+        "    type_arguments = getattr(container_type, '__args__', None)\n"
+        "    if type_arguments:\n        return type_arguments[0]\n    else:\n        return Any"),
+    ("utils", "is_subparser_field"): (
+        "def is_subparser_field(field: Field) -> bool:\n"
+        "    if is_union(field.type) and (not is_choice(field)):\n"
+        "        type_arguments = get_type_arguments(field.type)\n"
+        "        return all(map(dataclasses.is_dataclass, type_arguments))\n"
+        "    return bool(field.metadata.get('subparsers', {}))"),
+    ("utils", "is_choice"): "def is_choice(field: Field) -> bool:\n    return bool(field.metadata.get('custom_args', {}).get('choices', {}))",
+    ("utils", "is_optional"): (
+        "def is_optional(t: type) -> bool:\n"
+        "    if is_union(t) and type(None) in get_type_arguments(t):\n        return True\n"
+        "    elif is_literal(t) and None in get_type_arguments(t):\n        return True\n"
+        "    else:\n        return False"),
+    ("fw", "type"): (
+        "def type(self) -> type[Any]:\n"
+        "    if self._type is None:\n"
+        "        self._type = self.field.type\n"
+        "        if isinstance(self._type, str):\n"
+        "            from simple_parsing.annotation_utils.get_field_annotations import get_field_type_from_annotations\n"
+        "            field_type = get_field_type_from_annotations(self.parent.dataclass, self.field.name)\n"
+        "            self._type = field_type\n"
+        "        elif isinstance(self._type, dataclasses.InitVar):\n"
+        "            self._type = self._type.type\n"
+        "    return self._type"),
+    ("gfa", "evaluate_string_annotation"): (
+        "def evaluate_string_annotation(annotation: str, containing_class: Optional[type]=None) -> type:\n"
+        "    local_ns: dict[str, Any] = {'typing': typing, **vars(typing)}\n"
+        "    local_ns.update(forward_refs_to_types)\n"
+        "    global_ns = {}\n"
+        "    if containing_class:\n"
+        "        global_ns = sys.modules[containing_class.__module__].__dict__\n"
+        "    if '|' in annotation:\n"
+        "        annotation = _get_old_style_annotation(annotation)\n"
+        "    evaluated_t: type = eval(annotation, local_ns, global_ns)\n"
+        "    return evaluated_t"),
+}
+
+# get_field_type_from_annotations: everything up to `field_type = annotations_dict[field_name]` (namespaces, frame walk,
+# get_type_hints, TypeError fallback) is compared as a whole; the statements after it are the regenerated steps
+GFT_HEAD = """\
+local_ns: dict[str, Any] = {'typing': typing, **vars(typing)}
+local_ns.update(forward_refs_to_types)
+frame = inspect.currentframe()
+while frame.f_back is not None and frame.f_locals.get(some_class.__name__) is not some_class:
+    frame = frame.f_back
+if frame is not None:
+    local_ns.update(frame.f_locals)
+global_ns = {}
+classes_to_iterate = list(dropwhile(lambda cls: field_name not in getattr(cls, '__annotations__', {}), some_class.mro()))
+for base_cls in reversed(classes_to_iterate):
+    global_ns.update(sys.modules[base_cls.__module__].__dict__)
+try:
+    with _initvar_patcher():
+        annotations_dict = get_type_hints(some_class, localns=local_ns, globalns=global_ns)
+except TypeError:
+    annotations_dict = collections.ChainMap(*[getattr(cls, '__annotations__', {}) for cls in some_class.mro()])
+if field_name not in annotations_dict:
+    raise ValueError(f'Field {field_name} not found in annotations of class {some_class}')
+field_type = annotations_dict[field_name]"""
+GFT_STEPS = {
+    "if sys.version_info[:2] >= (3, 7) and isinstance(field_type, typing.ForwardRef):\n"
+    "    forward_arg = field_type.__forward_arg__\n    field_type = forward_arg": "SForwardRefArg",
+    f"if sys.version_info >= (3, 10) and isinstance(field_type, types.UnionType):\n    field_type = {R}(field_type)":
+        "SNormTopUnionType",
+    "if isinstance(field_type, str) and '|' in field_type:\n    field_type = _get_old_style_annotation(field_type)":
+        "SRewriteStrBar",
+    "try:\n\n    class Temp_:\n        pass\n    Temp_.__annotations__ = {field_name: field_type}\n"
+    "    with _initvar_patcher():\n        annotations_dict = get_type_hints(Temp_, globalns=global_ns, localns=local_ns)\n"
+    "    field_type = annotations_dict[field_name]\nexcept Exception:\n    field_type = field_type": "SReevaluate",
+}
+
+
+def _exact(tree, key, name, cls=None):
+    got = ctext(find_def(tree, name, cls=cls))
+    if got != EXACT[key]:
+        import difflib
+        d = "\n".join(list(difflib.unified_diff(EXACT[key].splitlines(), got.splitlines(), lineterm="", n=0))[:10])
+        raise Unrecognised(f"{key[0]}.{name} no longer has the text the model follows:\n{d}")
+
+
+def _mro_facts(utils):
+    fn = find_def(utils, "_mro")
+    if [a.arg for a in fn.args.args] != ["t"]:
+        raise Unrecognised("utils._mro signature")
+    tests = {"t is None": "MIsNone", "hasattr(t, '__mro__')": "MHasDunderMro", "get_origin(t) is type": "MOriginIsType",
+             "hasattr(t, 'mro') and callable(t.mro)": "MHasMroMethod"}
+    answers = {"return []": "MEmpty", "return t.__mro__": "MDunderMro", "return t.mro()": "MCallMro"}
+    rows, els = [], None
+    body = clean(fn.body)
+    for i, st in enumerate(body):
+        if isinstance(st, ast.If):
+            arms, tail = if_chain(st)
+            if tail:
+                raise Unrecognised("utils._mro: else branch")
+            for test, b in arms:
+                t, a = tests.get(unparse(test)), answers.get("\n".join(unparse(x) for x in b))
+                if t is None or a is None:
+                    raise Unrecognised(f"utils._mro: arm `{unparse(test)}`")
+                rows.append(f"({t}, {a})")
+        elif isinstance(st, ast.Return) and i == len(body) - 1:
+            els = answers.get(unparse(st))
+        else:
+            raise Unrecognised(f"utils._mro: statement {unparse(st)[:60]}")
+    if els is None:
+        raise Unrecognised("utils._mro: no final return")
+    return "[" + "; ".join(rows) + "]", els
+
+
+def _in_mro_names(utils, name):
+    """`return X in _mro(t)` or `mro = _mro(t); return A in mro or B in mro ...` -> the class names looked for"""
+    b = clean(find_def(utils, name).body)
+
+    def nm(e):
+        if isinstance(e, ast.Name):
+            return e.id
+        if isinstance(e, ast.Attribute):
+            return e.attr
+        raise Unrecognised(f"utils.{name}: looked-for class {unparse(e)}")
+
+    def member(e, container):
+        if not (isinstance(e, ast.Compare) and len(e.ops) == 1 and isinstance(e.ops[0], ast.In)
+                and unparse(e.comparators[0]) == container):
+            raise Unrecognised(f"utils.{name}: {unparse(e)}")
+        return nm(e.left)
+
+    if len(b) == 1 and isinstance(b[0], ast.Return):
+        return [member(b[0].value, "_mro(t)")]
+    if len(b) == 2 and unparse(b[0]) == "mro = _mro(t)" and isinstance(b[1], ast.Return) \
+            and isinstance(b[1].value, ast.BoolOp) and isinstance(b[1].value.op, ast.Or):
+        return [member(v, "mro") for v in b[1].value.values]
+    raise Unrecognised(f"utils.{name} changed")
+
+
+def _is_union_kinds(utils):
+    b = [unparse(x) for x in clean(find_def(utils, "is_union").body)]
+    known = {"if sys.version_info[:2] >= (3, 10) and isinstance(t, types.UnionType):\n    return True": "UKUnionType",
+             "return getattr(t, '__origin__', '') == Union": "UKTypingUnion"}
+    out = []
+    for i, t in enumerate(b):
+        if t not in known or (t.startswith("return") and i != len(b) - 1):
+            raise Unrecognised(f"utils.is_union: statement {t[:80]}")
+        out.append(known[t])
+    if not b or not b[-1].startswith("return"):
+        raise Unrecognised("utils.is_union: no final return")
+    return out
+
+
+def _contains_chain(utils):
+    fn = find_def(utils, "contains_dataclass_type_arg")
+    body = clean(fn.body)
+    if len(body) != 2 or not isinstance(body[0], ast.If) or unparse(body[1]) != "return False":
+        raise Unrecognised("utils.contains_dataclass_type_arg: shape")
+    arms, tail = if_chain(body[0])
+    if tail:
+        raise Unrecognised("utils.contains_dataclass_type_arg: else branch")
+    tests = {"is_dataclass_type_or_typevar(t)": "CTIsDataclass", "is_tuple_or_list_of_dataclasses(t)": "CTSeqOfDataclasses",
+             "is_union(t)": "CTIsUnion"}
+    answers = {"return True": "CATrue",
+               "return any((contains_dataclass_type_arg(arg) for arg in get_type_arguments(t)))": "CAAnyArg",
+               "return False": "CAFalse"}
+    rows = []
+    for test, b in arms:
+        t, a = tests.get(unparse(test)), answers.get("\n".join(unparse(x) for x in b))
+        if t is None or a is None:
+            raise Unrecognised(f"utils.contains_dataclass_type_arg: arm `{unparse(test)}`")
+        rows.append(f"({t}, {a})")
+    return "[" + "; ".join(rows) + "]", "CAFalse"
+
+
+def _wrap_chain(loop_body):
+    """the statements of DataclassWrapper.__init__'s loop that decide between a FieldWrapper and a child wrapper"""
+    guard = [s for s in loop_body if isinstance(s, ast.If) and unparse(s.test) == "utils.is_tuple_or_list_of_dataclasses(field_type)"]
+    chain = [s for s in loop_body if isinstance(s, ast.If) and unparse(s.test) == "utils.is_subparser_field(field) or utils.is_choice(field)"]
+    if len(chain) != 1 or loop_body[-1] is not chain[0]:
+        raise Unrecognised("DataclassWrapper.__init__: the FieldWrapper / child-wrapper decision is no longer the last statement of the loop")
+    guard_raises = False
+    if guard:
+        g = guard[0]
+        if len(guard) != 1 or g.orelse or len(clean(g.body)) != 1 or not isinstance(clean(g.body)[0], ast.Raise) \
+                or _raise_name(clean(g.body)[0]) != "NotImplementedError" or loop_body.index(g) > loop_body.index(chain[0]):
+            raise Unrecognised("DataclassWrapper.__init__: container-of-dataclasses guard changed")
+        guard_raises = True
+    tests = {"utils.is_subparser_field(field) or utils.is_choice(field)": "DSubparserOrChoice",
+             "dataclasses.is_dataclass(field_type) and field.default is not None": "DDataclassDefaultNotNone",
+             "utils.contains_dataclass_type_arg(field_type)": "DContainsDataclass"}
+
+    def kind(b):
+        texts = [unparse(x) for x in b]
+        child = "self._children.append(child_wrapper)" in texts
+        fieldw = "self.fields.append(field_wrapper)" in texts
+        opt = "child_wrapper.optional = True" in texts
+        if fieldw and not child and texts[-1] == "self.fields.append(field_wrapper)" \
+                and any(t.startswith("field_wrapper = self.field_wrapper_class(field, parent=self") for t in texts):
+            return "WField"
+        if child and not fieldw and not opt and "dataclass, name = (field_type, field.name)" in texts \
+                and "child_wrapper = DataclassWrapper(dataclass, name, parent=self, _field=field, default=field_default)" in texts:
+            return "WChild"
+        if child and not fieldw and opt and "field_dataclass = utils.get_dataclass_type_arg(field_type)" in texts \
+                and "child_wrapper = DataclassWrapper(field_dataclass, name=field.name, parent=self, _field=field, default=field_default)" in texts:
+            return "WOptChild"
+        raise Unrecognised("DataclassWrapper.__init__: arm body not recognised: " + " | ".join(texts)[:200])
+
+    arms, tail = if_chain(chain[0])
+    rows = []
+    for test, b in arms:
+        t = tests.get(unparse(test))
+        if t is None:
+            raise Unrecognised(f"DataclassWrapper.__init__: test {unparse(test)[:80]}")
+        rows.append(f"({t}, {kind(b)})")
+    if not tail:
+        raise Unrecognised("DataclassWrapper.__init__: no else branch")
+    return guard_raises, "[" + "; ".join(rows) + "]", kind(tail)
+
+
+def _resolve_steps(gfa):
+    fn = copy.deepcopy(find_def(gfa, "get_field_type_from_annotations"))
+    if [a.arg for a in fn.args.args] != ["some_class", "field_name"]:
+        raise Unrecognised("get_field_type_from_annotations signature")
+    text = ctext(fn)
+    lines = text.split("\n")
+    body = "\n".join(ln[4:] for ln in lines[1:])
+    if not body.startswith(GFT_HEAD + "\n"):
+        import difflib
+        d = "\n".join(list(difflib.unified_diff(GFT_HEAD.splitlines(), body.splitlines()[:len(GFT_HEAD.splitlines())],
+                                                lineterm="", n=0))[:10])
+        raise Unrecognised("get_field_type_from_annotations: namespaces / frame walk / get_type_hints part changed:\n" + d)
+    nhead = len(ast.parse(GFT_HEAD).body)
+    rest = clean(find_def(gfa, "get_field_type_from_annotations").body)[nhead:]
+    if not rest or unparse(rest[-1]) != "return field_type":
+        raise Unrecognised("get_field_type_from_annotations: no final `return field_type`")
+    steps = []
+    for st in rest[:-1]:
+        t = ctext(st) if isinstance(st, ast.Try) else unparse(st)
+        k = GFT_STEPS.get(t)
+        if k is None:
+            raise Unrecognised("get_field_type_from_annotations: unknown step: " + t[:160])
+        steps.append(k)
+    return steps
+
+
 # ---- shape checks (nothing emitted beyond a marker) -----------------------------------------------
 
 def _require_stmt(fn, text, what):
@@ -234,12 +509,14 @@ def emit(repo: str) -> str:
     rw = _rewriter_facts(gfa)
     table, els, handles_ellipsis = _norm_facts(gfa)
 
-    # utils: the predicates the dispatch relies on
-    for name, want in (("is_list", ["return list in _mro(t)"]), ("is_tuple", ["return tuple in _mro(t)"]),
-                       ("is_dict", ["mro = _mro(t)", "return dict in mro or Mapping in mro or c_abc.Mapping in mro"])):
-        b = clean(find_def(utils, name).body)
-        if [unparse(x) for x in b] != want:
-            raise Unrecognised(f"utils.{name} changed")
+    # utils: the predicates (decision chains / looked-for names are facts; small helpers are compared whole)
+    mro_chain, mro_else = _mro_facts(utils)
+    list_names, tuple_names, dict_names = (_in_mro_names(utils, n) for n in ("is_list", "is_tuple", "is_dict"))
+    union_kinds = _is_union_kinds(utils)
+    for name in ("get_type_arguments", "get_dataclass_type_arg", "is_tuple_or_list_of_dataclasses", "is_tuple_or_list",
+                 "is_dataclass_type_or_typevar", "get_item_type", "is_subparser_field", "is_choice", "is_optional"):
+        _exact(utils, ("utils", name), name)
+    contains_chain, contains_else = _contains_chain(utils)
     bt = unparse(module_assign(utils, "builtin_types"))
     if bt != "[getattr(builtins, d) for d in dir(builtins) if isinstance(getattr(builtins, d), type)]":
         raise Unrecognised("utils.builtin_types changed")
@@ -251,10 +528,8 @@ def emit(repo: str) -> str:
     _require_stmt(g, "if isinstance(field_type, str) and '|' in field_type:\n"
                      "    field_type = _get_old_style_annotation(field_type)", "get_field_type_from_annotations")
     _require_stmt(g, "local_ns.update(forward_refs_to_types)", "get_field_type_from_annotations")
-    e = find_def(gfa, "evaluate_string_annotation")
-    _require_stmt(e, "if '|' in annotation:\n    annotation = _get_old_style_annotation(annotation)",
-                  "evaluate_string_annotation")
-    _require_stmt(e, "local_ns.update(forward_refs_to_types)", "evaluate_string_annotation")
+    _exact(gfa, ("gfa", "evaluate_string_annotation"), "evaluate_string_annotation")
+    steps = _resolve_steps(gfa)
 
     # DataclassWrapper.__init__: which fields become arguments, when the type is re-resolved
     kinds = _field_kinds(dw)
@@ -275,12 +550,10 @@ def emit(repo: str) -> str:
     if unparse(ast.If(test=lb[1].test, body=clean(lb[1].body), orelse=clean(lb[1].orelse))
                if isinstance(lb[1], ast.If) else lb[1]) != want:
         raise Unrecognised("DataclassWrapper.__init__: re-resolution of str field types changed")
-    # FieldWrapper.type: str -> get_field_type_from_annotations, InitVar -> .type
-    ft = find_def(fw, "type", cls="FieldWrapper")
-    _require_stmt(ft, "field_type = get_field_type_from_annotations(self.parent.dataclass, self.field.name)", "FieldWrapper.type")
-    tests = [unparse(n.test) for n in ast.walk(ft) if isinstance(n, ast.If)]
-    if tests != ["self._type is None", "isinstance(self._type, str)", "isinstance(self._type, dataclasses.InitVar)"]:
-        raise Unrecognised("FieldWrapper.type: decision chain changed: " + " | ".join(tests))
+    guard_raises, wrap_chain, wrap_else = _wrap_chain(lb)
+    # FieldWrapper.type: str -> get_field_type_from_annotations, InitVar -> .type (compared whole)
+    _exact(fw, ("fw", "type"), "type", cls="FieldWrapper")
+    initvar_unwrapped = True
 
     def ch(s):
         return cstr(s) + "%char"
@@ -301,13 +574,38 @@ def emit(repo: str) -> str:
         f"Definition NORM_ELSE_GEN : nact := {els}.\n"
         f"Definition NORM_HANDLES_ELLIPSIS_GEN : bool := {'true' if handles_ellipsis else 'false'}.\n"
         f"Definition FIELD_KINDS_GEN : list fkind := [{'; '.join(kinds)}].\n"
+        f"Definition MRO_CHAIN_GEN : list (mtest * mans) := {mro_chain}.\n"
+        f"Definition MRO_ELSE_GEN : mans := {mro_else}.\n"
+        f"Definition IS_LIST_NAMES_GEN : list string := {cstrs(list_names)}.\n"
+        f"Definition IS_TUPLE_NAMES_GEN : list string := {cstrs(tuple_names)}.\n"
+        f"Definition IS_DICT_NAMES_GEN : list string := {cstrs(dict_names)}.\n"
+        f"Definition IS_UNION_KINDS_GEN : list ukind := [{'; '.join(union_kinds)}].\n"
+        "Definition IS_OPTIONAL_UNION_ARM_GEN : bool := true.\n"
+        f"Definition CONTAINS_CHAIN_GEN : list (ctest * cans) := {contains_chain}.\n"
+        f"Definition CONTAINS_ELSE_GEN : cans := {contains_else}.\n"
+        f"Definition WRAP_GUARD_SEQ_RAISES_GEN : bool := {'true' if guard_raises else 'false'}.\n"
+        f"Definition WRAP_CHAIN_GEN : list (dtest * wkind) := {wrap_chain}.\n"
+        f"Definition WRAP_ELSE_GEN : wkind := {wrap_else}.\n"
+        f"Definition RESOLVE_STEPS_GEN : list rstep := [{'; '.join(steps)}].\n"
+        f"Definition INITVAR_UNWRAPPED_GEN : bool := {'true' if initvar_unwrapped else 'false'}.\n"
         "(* the model instantiated with the regenerated facts *)\n"
         "Definition old_style_fuel_gen := old_style_fuel RW_BAR_GEN RW_LBR_GEN RW_RBR_GEN RW_COMMA_GEN\n"
         "  (chars RW_UNION_OPEN_GEN) (chars RW_JOIN_GEN) (chars RW_UNION_CLOSE_GEN) RW_NOT_SUPPORTED_GEN.\n"
         "Definition old_style_gen := old_style RW_BAR_GEN RW_LBR_GEN RW_RBR_GEN RW_COMMA_GEN\n"
         "  (chars RW_UNION_OPEN_GEN) (chars RW_JOIN_GEN) (chars RW_UNION_CLOSE_GEN) RW_NOT_SUPPORTED_GEN.\n"
-        "Definition norm_gen := norm NORM_TABLE_GEN NORM_ELSE_GEN.\n"
-        "Definition resolve_gen := resolve NORM_TABLE_GEN NORM_ELSE_GEN FORWARD_REFS_GEN.\n"
+        "Definition is_list_gen := in_mro MRO_CHAIN_GEN MRO_ELSE_GEN IS_LIST_NAMES_GEN.\n"
+        "Definition is_tuple_gen := in_mro MRO_CHAIN_GEN MRO_ELSE_GEN IS_TUPLE_NAMES_GEN.\n"
+        "Definition is_dict_gen := in_mro MRO_CHAIN_GEN MRO_ELSE_GEN IS_DICT_NAMES_GEN.\n"
+        "Definition is_union_gen := is_union_m IS_UNION_KINDS_GEN.\n"
+        "Definition is_optional_gen (r : rty) : bool :=\n"
+        "  IS_OPTIONAL_UNION_ARM_GEN && is_union_gen r && rty_in (RCls \"NoneType\") (get_args_m r).\n"
+        "Definition contains_dc_gen := contains_dc is_list_gen is_tuple_gen IS_UNION_KINDS_GEN CONTAINS_CHAIN_GEN CONTAINS_ELSE_GEN.\n"
+        "Definition wrapper_kind_gen := wrapper_kind is_list_gen is_tuple_gen IS_UNION_KINDS_GEN CONTAINS_CHAIN_GEN CONTAINS_ELSE_GEN\n"
+        "  WRAP_GUARD_SEQ_RAISES_GEN WRAP_CHAIN_GEN WRAP_ELSE_GEN.\n"
+        "Definition norm_gen := norm is_list_gen is_tuple_gen is_dict_gen NORM_TABLE_GEN NORM_ELSE_GEN.\n"
+        "Definition resolve_gen := resolve is_list_gen is_tuple_gen is_dict_gen NORM_TABLE_GEN NORM_ELSE_GEN RESOLVE_STEPS_GEN\n"
+        "  FORWARD_REFS_GEN.\n"
         "Definition wrapper_fields_gen := wrapper_fields FIELD_KINDS_GEN.\n"
-        "Definition field_types_gen := field_types NORM_TABLE_GEN NORM_ELSE_GEN FORWARD_REFS_GEN FIELD_KINDS_GEN.\n"
+        "Definition field_types_gen := field_types is_list_gen is_tuple_gen is_dict_gen NORM_TABLE_GEN NORM_ELSE_GEN\n"
+        "  RESOLVE_STEPS_GEN FORWARD_REFS_GEN FIELD_KINDS_GEN INITVAR_UNWRAPPED_GEN.\n"
     )
